@@ -118,6 +118,13 @@ class Run:
                 ann.start()
             elif a["kind"] == "unannounce":
                 ann.stop_announce_service(self.insts[a["k"]])
+            elif a["kind"] == "reboot_msg":
+                # the requester restarts and says so (session id starts over, reboot flag set) while its answer is still waiting
+                # in the collection window: the answer is owed all the same
+                self.sess.state.pop((a["peer"], a["mc"]), None)
+                fl, sid = self.sess.next((a["peer"], a["mc"]))
+                data = net.sd_bytes([net.find(0x7F7F, 1, 1, 0)], sid, reboot=fl)
+                self.prot.datagram_received(data, a["peer"], a["mc"])
             elif a["kind"] == "find":
                 fl, sid = self.sess.next((a["peer"], a["mc"]))
                 data = net.sd_bytes([net.find(*e) for e in a["entries"]], sid, reboot=fl)
@@ -208,6 +215,10 @@ def build(rng):
         idx = next(i for i, it in enumerate(script) if it[2]["kind"] == "find")
         script.insert(idx + 1, (y, rank, dict(kind="find", peer=other, mc=mc, entries=entries)))
     d = c10.answer_delay(cfg) if mc else 0.0
+    reboot_in_window = bool(cfg["ct"]) and rng.random() < 0.25
+    if reboot_in_window:
+        script.append((y + d + cfg["ct"] / 2, BEFORE, dict(kind="reboot_msg", peer=peer, mc=mc)))
+        script.sort(key=lambda it: (it[0], it[1]))
     horizon = max(y + d, x or 0) + 1.0
     return dict(cfg=cfg, insts=insts, script=script, y=y, x=x, stop_k=stop_k, T0=T0, mc=mc, entries=entries, pats=pats,
                 peer=peer, peers=peers, cls=cls, d=d, horizon=horizon)
